@@ -3,11 +3,14 @@ package main
 import (
 	"context"
 	"fmt"
+	"math/rand"
 	"sort"
+	"strings"
 	"sync"
 	"testing/fstest"
 
 	"cuelang.org/go/internal/mod/modload"
+	"cuelang.org/go/internal/mod/modrequirements"
 	"cuelang.org/go/internal/mod/semver"
 	"cuelang.org/go/mod/modfile"
 	"cuelang.org/go/mod/modregistry"
@@ -17,13 +20,15 @@ import (
 type memReg struct {
 	mu    sync.Mutex
 	mods  map[module.Version]fstest.MapFS
-	calls []string
+	calls int
+	log   []string
 }
 
-func (r *memReg) log(s string) { r.mu.Lock(); r.calls = append(r.calls, s); r.mu.Unlock() }
-
 func (r *memReg) Fetch(ctx context.Context, m module.Version) (module.SourceLoc, error) {
-	r.log("Fetch " + m.String())
+	r.mu.Lock()
+	r.calls++
+	r.log = append(r.log, "Fetch "+m.String())
+	r.mu.Unlock()
 	fs, ok := r.mods[m]
 	if !ok {
 		return module.SourceLoc{}, modregistry.ErrNotFound
@@ -31,7 +36,6 @@ func (r *memReg) Fetch(ctx context.Context, m module.Version) (module.SourceLoc,
 	return module.SourceLoc{FS: fs, Dir: "."}, nil
 }
 func (r *memReg) ModFile(ctx context.Context, m module.Version) (*modfile.File, error) {
-	r.log("ModFile " + m.String())
 	fs, ok := r.mods[m]
 	if !ok {
 		return nil, modregistry.ErrNotFound
@@ -39,7 +43,6 @@ func (r *memReg) ModFile(ctx context.Context, m module.Version) (*modfile.File, 
 	return modfile.Parse(fs["cue.mod/module.cue"].Data, "cue.mod/module.cue")
 }
 func (r *memReg) ModuleVersions(ctx context.Context, mpath string) ([]string, error) {
-	r.log("ModuleVersions " + mpath)
 	var vs []string
 	for m := range r.mods {
 		if m.Path() == mpath || m.BasePath() == mpath {
@@ -50,38 +53,238 @@ func (r *memReg) ModuleVersions(ctx context.Context, mpath string) ([]string, er
 	return vs, nil
 }
 
-func modFS(modcue string, files map[string]string) fstest.MapFS {
-	fs := fstest.MapFS{"cue.mod/module.cue": {Data: []byte(modcue)}}
-	for k, v := range files {
-		fs[k] = &fstest.MapFile{Data: []byte(v)}
-	}
-	return fs
+type modSpec struct {
+	path    string // ex.com/m1@v0
+	ver     string
+	imports map[string][]string // pkg dir ("" or "sub") -> import paths
+	deps    map[string]string   // module path -> version
 }
 
+func (m *modSpec) fs() fstest.MapFS {
+	var sb strings.Builder
+	fmt.Fprintf(&sb, "module: %q\nlanguage: version: \"v0.8.0\"\n", m.path)
+	if len(m.deps) > 0 {
+		var ks []string
+		for k := range m.deps {
+			ks = append(ks, k)
+		}
+		sort.Strings(ks)
+		sb.WriteString("deps: {\n")
+		for _, k := range ks {
+			fmt.Fprintf(&sb, "\t%q: v: %q\n", k, m.deps[k])
+		}
+		sb.WriteString("}\n")
+	}
+	out := fstest.MapFS{"cue.mod/module.cue": {Data: []byte(sb.String())}}
+	for dir, imps := range m.imports {
+		var b strings.Builder
+		name := strings.TrimSuffix(m.path[strings.LastIndex(m.path, "/")+1:], "@v0")
+		name = strings.ReplaceAll(name, ".", "")
+		file := "x.cue"
+		if dir != "" {
+			name = dir
+			file = dir + "/x.cue"
+		}
+		fmt.Fprintf(&b, "package %s\n", name)
+		if len(imps) > 0 {
+			b.WriteString("import (\n")
+			for i, ip := range imps {
+				fmt.Fprintf(&b, "\ti%d %q\n", i, ip)
+			}
+			b.WriteString(")\n")
+			for i := range imps {
+				fmt.Fprintf(&b, "f%d: i%d.v\n", i, i)
+			}
+		}
+		b.WriteString("v: 1\n")
+		out[file] = &fstest.MapFile{Data: []byte(b.String())}
+	}
+	return out
+}
+
+var versions = []string{"v0.1.0", "v0.2.0", "v0.3.0-pre"}
+
 func main() {
-	reg := &memReg{mods: map[module.Version]fstest.MapFS{}}
-	add := func(path, vers, modcue string, files map[string]string) {
-		reg.mods[module.MustNewVersion(path, vers)] = modFS(modcue, files)
+	ctx := context.Background()
+	stats := map[string]int{}
+	for trial := 0; trial < 600; trial++ {
+		r := rand.New(rand.NewSource(int64(trial)))
+		nm := 2 + r.Intn(4)
+		reg := &memReg{mods: map[module.Version]fstest.MapFS{}}
+		specs := map[string]*modSpec{}
+		modPath := func(i int) string { return fmt.Sprintf("ex.com/m%d@v0", i) }
+		// modules only import modules with higher index -> acyclic imports
+		for i := nm - 1; i >= 0; i-- {
+			for _, v := range versions {
+				if r.Intn(4) == 0 && v != "v0.1.0" {
+					continue
+				}
+				s := &modSpec{path: modPath(i), ver: v, imports: map[string][]string{}, deps: map[string]string{}}
+				for _, dir := range []string{"", "sub"} {
+					var imps []string
+					for j := i + 1; j < nm; j++ {
+						if r.Intn(3) == 0 {
+							p := fmt.Sprintf("ex.com/m%d@v0", j)
+							if r.Intn(2) == 0 {
+								p = fmt.Sprintf("ex.com/m%d/sub@v0", j)
+							}
+							imps = append(imps, p)
+							// dep on some existing version of j
+							var have []string
+							for _, vv := range versions {
+								if _, ok := specs[modPath(j)+" "+vv]; ok {
+									have = append(have, vv)
+								}
+							}
+							if _, ok := s.deps[modPath(j)]; !ok {
+								s.deps[modPath(j)] = have[r.Intn(len(have))]
+							}
+						}
+					}
+					s.imports[dir] = imps
+				}
+				specs[s.path+" "+v] = s
+				reg.mods[module.MustNewVersion(s.path, v)] = s.fs()
+			}
+		}
+		// main module
+		main := &modSpec{path: "main.org@v0", imports: map[string][]string{}, deps: map[string]string{}}
+		for _, dir := range []string{"", "sub"} {
+			var imps []string
+			for j := 0; j < nm; j++ {
+				if r.Intn(2) == 0 {
+					p := modPath(j)
+					if r.Intn(2) == 0 {
+						p = fmt.Sprintf("ex.com/m%d/sub@v0", j)
+					}
+					imps = append(imps, p)
+				}
+			}
+			main.imports[dir] = imps
+		}
+		// stale / partial deps
+		for j := 0; j < nm; j++ {
+			if r.Intn(3) == 0 {
+				main.deps[modPath(j)] = "v0.1.0"
+			}
+		}
+		mainFS := main.fs()
+		res, err := modload.Tidy(ctx, mainFS, ".", reg, nil)
+		if err != nil {
+			stats["tidy-error"]++
+			if stats["tidy-error"] <= 3 {
+				fmt.Println("TIDY ERROR", err)
+			}
+			continue
+		}
+		stats["tidied"]++
+		out, _ := modfile.Format(res.Module)
+		// P4 idempotence + CheckTidy
+		mainFS["cue.mod/module.cue"] = &fstest.MapFile{Data: out}
+		if err := modload.CheckTidy(ctx, mainFS, ".", reg, nil); err != nil {
+			stats["checktidy-fail"]++
+			fmt.Println("CHECKTIDY FAIL", trial, err)
+		}
+		res2, err := modload.Tidy(ctx, mainFS, ".", reg, nil)
+		if err != nil {
+			stats["retidy-error"]++
+			continue
+		}
+		out2, _ := modfile.Format(res2.Module)
+		if string(out) != string(out2) {
+			stats["not-idempotent"]++
+			fmt.Printf("NOT IDEMPOTENT trial %d\n%s---\n%s", trial, out, out2)
+		}
+		// independent closure: selected versions from R deps via MVS brute force
+		deps := map[string]string{}
+		for p, d := range res.Module.Deps {
+			deps[p] = d.Version
+		}
+		sel := map[string]string{}
+		var visit func(p, v string)
+		seen := map[string]bool{}
+		visit = func(p, v string) {
+			if cur, ok := sel[p]; !ok || semver.Compare(v, cur) > 0 {
+				sel[p] = v
+			}
+			if seen[p+" "+v] {
+				return
+			}
+			seen[p+" "+v] = true
+			if s, ok := specs[p+" "+v]; ok {
+				for dp, dv := range s.deps {
+					visit(dp, dv)
+				}
+			}
+		}
+		for p, v := range deps {
+			visit(p, v)
+		}
+		// P3: listed version == selected
+		for p, v := range deps {
+			if sel[p] != v {
+				stats["P3-not-mvs-selected"]++
+				fmt.Printf("P3 trial %d: %s listed %s selected %s\n", trial, p, v, sel[p])
+				if stats["P3-not-mvs-selected"] <= 2 {
+					pmf, _ := modfile.Parse(out, "module.cue"); roots := pmf.DepVersions()
+					rs := modrequirements.NewRequirements("main.org@v0", reg, roots, nil)
+					mg, gerr := rs.Graph(ctx)
+					if gerr == nil {
+						fmt.Printf("--- cue own graph build list %v\n", mg.BuildList())
+					} else {
+						fmt.Println("graph err", gerr)
+					}
+					fmt.Printf("--- registry log %v\n", reg.log)
+					fmt.Printf("--- main imports %v\n--- main deps before %v\n--- tidied\n%s", main.imports, main.deps, out)
+					for k, sp := range specs {
+						fmt.Printf("   %s deps=%v imports=%v\n", k, sp.deps, sp.imports)
+					}
+				}
+			}
+		}
+		// closure of imports
+		needed := map[string]bool{}
+		var walk func(imps []string)
+		seenPkg := map[string]bool{}
+		walk = func(imps []string) {
+			for _, ip := range imps {
+				if seenPkg[ip] {
+					continue
+				}
+				seenPkg[ip] = true
+				mp := strings.Replace(ip, "/sub@", "@", 1)
+				dir := ""
+				if strings.Contains(ip, "/sub@") {
+					dir = "sub"
+				}
+				needed[mp] = true
+				v, ok := sel[mp]
+				if !ok {
+					stats["P1-unresolved-import"]++
+					fmt.Printf("P1 trial %d: import %s not provided by build list %v\n", trial, ip, sel)
+					continue
+				}
+				walk(specs[mp+" "+v].imports[dir])
+			}
+		}
+		walk(main.imports[""])
+		walk(main.imports["sub"])
+		for p := range deps {
+			if !needed[p] {
+				stats["P2-unused-dep"]++
+				if stats["P2-unused-dep"] <= 5 {
+					fmt.Printf("P2 trial %d: dep %s unused\n%s", trial, p, out)
+				}
+			}
+		}
+		for p := range needed {
+			if _, ok := deps[p]; !ok {
+				stats["needed-but-not-listed"]++
+				if stats["needed-but-not-listed"] <= 5 {
+					fmt.Printf("NOTE trial %d: needed module %s (in closure) not listed; selected %s\n", trial, p, sel[p])
+				}
+			}
+		}
 	}
-	add("b.com/b@v0", "v0.1.0", "module: \"b.com/b@v0\"\nlanguage: version: \"v0.8.0\"\n", map[string]string{"b.cue": "package b\nx: 1\n"})
-	add("b.com/b@v0", "v0.2.0", "module: \"b.com/b@v0\"\nlanguage: version: \"v0.8.0\"\n", map[string]string{"b.cue": "package b\nx: 2\n"})
-	add("c.com/c@v0", "v0.1.0", "module: \"c.com/c@v0\"\nlanguage: version: \"v0.8.0\"\ndeps: \"b.com/b@v0\": v: \"v0.1.0\"\n", map[string]string{"c.cue": "package c\nimport \"b.com/b@v0\"\ny: b.x\n"})
-	main := modFS("module: \"main.org@v0\"\nlanguage: version: \"v0.8.0\"\n", map[string]string{
-		"x.cue": "package main\nimport (\n\t\"c.com/c@v0\"\n)\nz: c.y\n",
-	})
-	res, err := modload.Tidy(context.Background(), main, ".", reg, nil)
-	if err != nil {
-		fmt.Println("tidy error:", err)
-		return
-	}
-	b, _ := modfile.Format(res.Module)
-	fmt.Printf("%s", b)
-	sort.Strings(reg.calls)
-	fmt.Println(len(reg.calls), "registry calls")
-	// idempotence
-	main["cue.mod/module.cue"] = &fstest.MapFile{Data: b}
-	fmt.Println("CheckTidy:", modload.CheckTidy(context.Background(), main, ".", reg, nil))
-	res2, err := modload.Tidy(context.Background(), main, ".", reg, nil)
-	b2, _ := modfile.Format(res2.Module)
-	fmt.Println("idempotent:", string(b) == string(b2), err)
+	fmt.Println(stats)
 }
